@@ -67,6 +67,8 @@ class Interp(OpsMixin, BuiltinsMixin):
         self.watch = {}
         self.stubs = {}
         self.no_decide = 0
+        self.unknown_decorators = []
+        self.memo_store = {}
         self.visited = set()
         self.loop_stack = []
         self.dyn_syms = {}
@@ -155,6 +157,7 @@ class Interp(OpsMixin, BuiltinsMixin):
         self.callstack = []
         self.notes = []
         self.loop_stack = []
+        self.memo_store = {}
 
     def rollback(self):
         for kind, obj, key, old in reversed(self.journal):
@@ -337,14 +340,28 @@ class Interp(OpsMixin, BuiltinsMixin):
     def st_FunctionDef(self, s, frame):
         kind = "function"
         prop = None
+        memo = False
+        other_decorators = []
         for d in s.decorator_list:
+            dn = d.func if isinstance(d, ast.Call) else d
+            dname = dn.id if isinstance(dn, ast.Name) else (dn.attr if isinstance(dn, ast.Attribute) else None)
             if isinstance(d, ast.Name) and d.id in ("classmethod", "staticmethod"):
                 kind = d.id
             elif isinstance(d, ast.Name) and d.id == "property":
                 prop = "get"
             elif isinstance(d, ast.Attribute) and d.attr == "setter":
                 prop = "set"
+            elif dname in ("lru_cache", "cache", "cached_property", "memoize", "memoized"):
+                memo = True      # functools memoisation: results are shared between calls with equal arguments
+                if dname == "cached_property":
+                    prop = "get"
+            else:
+                other_decorators.append(ast.unparse(d))
         f = FuncVal(s.name, s, frame.module, kind=kind, closure=frame if frame.func else None)
+        f.memo = memo
+        f.other_decorators = other_decorators
+        if other_decorators:
+            self.unknown_decorators.append((frame.module.name, s.name, other_decorators, s.lineno))
         f.defaults = [self.eval(d, frame) for d in s.args.defaults]
         f.kw_defaults = [self.eval(d, frame) if d is not None else None for d in s.args.kw_defaults]
         for d in f.defaults:
@@ -801,6 +818,8 @@ class Interp(OpsMixin, BuiltinsMixin):
         ndef = len(defaults)
         args = list(args)
         kwargs = dict(kwargs)
+        kwargs_orig = dict(kwargs)
+        args_orig = list(args)
         where = frame.where(node) if frame is not None else "?"
         # positional
         if len(args) > len(params) and a.vararg is None:
@@ -837,6 +856,19 @@ class Interp(OpsMixin, BuiltinsMixin):
             raise PyRaise(Instance(self.bclasses["TypeError"],
                                    ("%s() got an unexpected keyword argument '%s'" % (f.name, sorted(kwargs, key=str)[0]),)),
                           node, where)
+        if getattr(f, "memo", False):
+            mk = (f.qualname,) + tuple((k, self.memo_key(v)) for k, v in sorted(locs.items(), key=lambda kv: kv[0]))
+            if mk in self.memo_store:
+                self.event("memo-hit", func=f.qualname, where=frame.where(node) if frame else None)
+                return self.memo_store[mk]
+            f2 = FuncVal(f.name, f.node, f.module, kind=f.kind, cls=f.cls, closure=f.closure)
+            f2.qualname = f.qualname
+            f2.defaults, f2.kw_defaults, f2.memo = f.defaults, f.kw_defaults, False
+            f2.other_decorators = []
+            r = self.call_function(f2, args_orig, kwargs_orig, node, frame)
+            self.memo_store[mk] = r
+            self.event("memo-store", func=f.qualname, where=frame.where(node) if frame else None, node=f.node)
+            return r
         w = self.watch.get(f.qualname)
         if w is not None:
             w(self, f, locs, node, frame)
@@ -856,6 +888,16 @@ class Interp(OpsMixin, BuiltinsMixin):
             return None
         finally:
             self.callstack.pop()
+
+    def memo_key(self, v):
+        v = norm_int(v)
+        if v is None or isinstance(v, (bool, int, str, bytes, float)):
+            return ("c", v)
+        if isinstance(v, Sym):
+            return ("s", v.key())
+        if isinstance(v, tuple):
+            return ("t",) + tuple(self.memo_key(x) for x in v)
+        return ("o", id(v))       # objects hash by identity (self, devices, ...)
 
     def own_nodes(self, fnode):
         cached = getattr(fnode, "_own_nodes", None)
